@@ -36,6 +36,8 @@ FIXED_NEAR_MISSES = [
     '-1e999', '1j', '-1j', '1_000', '0xFF', '10**2', 'True', 'False', 'None', 'true', 'nan', 'inf', '((1))', '((1),)',
     '(((1,),),)', '{1: {2: {3: [4, (5,)]}}}', "{'a': 1, 'a': 2}", "{'a': 1, 'b': 2, 'a': 3}", '[1, 2, 3,]', '(1, 2,)',
     "{'a': 1,}", '[[], (), {}]', '9' * 60, '-' + '9' * 60, '0' * 3, '007', '1 \\\n', '[1, \\\n 2]',
+    # inside a string literal these are ordinary characters for the tokenizer (str.splitlines would cut there)
+    "'a\x0bb'", "'a\x0cb'", '"""a\x0cb"""', "'x\u2028y'", "r'a\x1cb'", "b'a\x0cb'", "['a\x85b', 1]", "'a\x1d' 'b\x1e'", "'\u2029'",
 ]
 
 
@@ -88,6 +90,9 @@ def gen_strpiece(rng, kind):
       body += '\n'
     elif kind == 'str' and r < 0.96:
       body += rng.choice('é☃')
+    elif r < 0.985:
+      # characters that str.splitlines() treats as line ends but the tokenizer does not: part of the string
+      body += rng.choice('\x0b\x0c\x1c\x1d\x1e' + ('\x85\u2028\u2029' if kind == 'str' else ''))
     else:
       body += 'q'
   if len(q) == 3 and body.endswith(q[0]):
@@ -279,4 +284,66 @@ class ValueEngine(Engine):
     return {'obs': obs, 'fails': fails, 'nontrivial': bool(case.get('nt')), 'tags': tags}
 
 
-ENGINES = [ValueEngine()]
+EQUAL_FAMILIES = [['1', '1.0', 'True', '1e0', '(1)'], ['0', '0.0', '-0.0', 'False', '-0'], ['[1, 0]', '[True, 0.0]', '[1.0, False]'],
+                  ['(1, 2)', '(1.0, 2)', '(True, 2.0)'], ["{'k': 1}", "{'k': True}", "{'k': 1.0}"], ['2', '2.0'], ["'a'", "u'a'", "'' 'a'"],
+                  ['[]', '()', '{}'], ['None', '0', "''"]]
+
+
+class StoreEngine(Engine):
+  """'is stored as the value, OF THE SAME TYPE, that Python evaluates that text to': a key bound several times (in one
+  text or in successive parses) to literals that compare equal but differ in type or sign of zero; what the store
+  holds afterwards is the LAST literal's value, type included."""
+  name = 'literal-store'
+  imports = 'Model.SelectorMap Model.Parser Model.Stmt'
+  run_fn = 'Stmt.run'
+  REGS = [{'sel': 'm.f', 'args': ['a', 'b'], 'varkw': False, 'allow': [], 'deny': []}]
+
+  def budget(self, tier):
+    return 120 if tier == 'quick' else 3000
+
+  def corpus(self):
+    return [{'calls': [[['a', '1'], ['a', '1.0']]]}, {'calls': [[['a', '0.0']], [['a', '-0.0']], [['b', 'True'], ['b', '1']]]}]
+
+  def gen(self, rng, tier):
+    calls = []
+    for _ in range(rng.randint(1, 3)):
+      fam = rng.choice(EQUAL_FAMILIES)
+      calls.append([[rng.choice(['a', 'a', 'b']), rng.choice(fam)] for _ in range(rng.randint(1, 4))])
+    return {'calls': calls}
+
+  def case(self, c):
+    return {'regs': self.REGS, 'consts': [], 'files': [{}], 'prefixes': [''], 'modules': [],
+            'calls': [['text', ''.join('f.%s = %s\n' % (p, v) for p, v in call), None] for call in c['calls']]}
+
+  def to_coq(self, c):
+    from harness import textm
+    return textm.case_coq(self.case(c))
+
+  def shrink(self, c):
+    for i in range(len(c['calls'])):
+      yield {'calls': c['calls'][:i] + c['calls'][i + 1:]}
+      for j in range(len(c['calls'][i])):
+        yield {'calls': c['calls'][:i] + [c['calls'][i][:j] + c['calls'][i][j + 1:]] + c['calls'][i + 1:]}
+
+  def impl(self, c):
+    from harness import textm
+    m = textm.TextMachine(self.case(c))
+    fails = []
+    try:
+      obs, _ = m.run()
+      got = {p: v for _, _, pd in obs[len(c['calls'])] for p, v in pd}
+    finally:
+      m.close()
+    want = {}
+    for call in c['calls']:
+      for p, v in call:
+        want[p] = P.lit_eval(v)
+    for p in want:
+      if C.jsonable(got.get(p)) != C.jsonable(want[p]):
+        fails.append(('stored-value-differs-from-python', 'f.%s: the last literal evaluates to %r, the store holds %r (history %r)' %
+                      (p, C.jsonable(want[p]), C.jsonable(got.get(p)), c['calls'])))
+    rebinds = sum(len(call) for call in c['calls']) > len(want)
+    return {'obs': obs, 'fails': fails[:2], 'nontrivial': rebinds, 'tags': ['calls%d' % len(c['calls'])]}
+
+
+ENGINES = [ValueEngine(), StoreEngine()]
